@@ -174,6 +174,8 @@ impl GarbageCollector {
 /// Returns an error if the store operation fails.
 pub fn decrement_chunk_refs(store: &TensorStore, chunk_key: &str) -> Result<()> {
     if let Ok(mut tensor) = store.get(chunk_key) {
+        #[cfg(neumann_verif)]
+        tensor_store::verif_hooks::yield_point("blob.refs.rmw");
         let refs = get_int(&tensor, "_refs").unwrap_or(1);
         let new_refs = (refs - 1).max(0);
         tensor.set(
@@ -192,6 +194,8 @@ pub fn decrement_chunk_refs(store: &TensorStore, chunk_key: &str) -> Result<()> 
 /// Returns an error if the store operation fails.
 pub fn increment_chunk_refs(store: &TensorStore, chunk_key: &str) -> Result<()> {
     if let Ok(mut tensor) = store.get(chunk_key) {
+        #[cfg(neumann_verif)]
+        tensor_store::verif_hooks::yield_point("blob.refs.rmw");
         let refs = get_int(&tensor, "_refs").unwrap_or(0);
         tensor.set(
             "_refs",
